@@ -1,9 +1,11 @@
 #!/bin/bash
-# runs every kept seed against the check of its property; prints caught/missed
+# runs every kept seed against the check of its property (4 at a time); prints caught (exit=1) / missed (exit=0)
 cd /verif
-for d in seeded/*/; do
-  id=$(basename $d); prop=${id:0:3}
-  if grep -q '"status": "neutralised"' $d/meta.json; then echo "$id neutralised (no longer breaks the property on the repaired tree)"; continue; fi
-  out=$(tools/try_seed.sh /verif/seeded/$id/patch.diff $prop 2>&1 | tail -1)
+one() {
+  id=$1; prop=${id:0:3}
+  if grep -q '"status": "neutralised"' seeded/$id/meta.json; then echo "$id neutralised (no longer breaks the property on the repaired tree)"; return; fi
+  out=$(tools/try_seed.sh /verif/seeded/$id/patch.diff $prop --procs 6 2>&1 | tail -1)
   echo "$id $out"
-done
+}
+export -f one
+ls seeded | xargs -P 4 -I{} bash -c 'one {}'
